@@ -63,6 +63,9 @@ Fixpoint span_digits (s : str) : str * str :=
 
 (* magnitude bound of a float of the given size: 2^128 / 2^1024 *)
 Definition float_bound (bits : N) : Z := Z.of_N (if bits =? 32 then pow2 128 else pow2 1024).
+(* math.MaxFloat32 / math.MaxFloat64: the largest finite values *)
+Definition float_max (bits : N) : Z :=
+  if bits =? 32 then (2 ^ 24 - 1) * 2 ^ 104 else (2 ^ 53 - 1) * 2 ^ 971.
 
 Definition parse_float (bits : N) (s : str) : outcome Z :=
   let '(neg, body) :=
